@@ -1326,17 +1326,24 @@ class RecLock:
 
 
 def conc_run(case, policy):
-    """one schedule of: thread 1 = `change m:target v` (twice), thread 2 = moves target_max (driver-side read of a new
-    hardware limit / write_target_max / a change request).  Real SecNode + Dispatcher + wrappers under vlib.sched."""
+    """one schedule of: thread 1 = brings a value to write_target (once or twice), thread 2 = moves target_max (driver-side
+    read of a new hardware limit / write_target_max / a change request).  Real SecNode + Dispatcher + wrappers under vlib.sched.
+    Thread 1 reaches the write wrapper in every way the code offers (case['via'], per value):
+      'change'  `change m:target v`  - the dispatcher validates and calls the wrapper (holding accessLock itself)
+      'do'      `do m:go v`          - a command function that forwards to self.write_target(v), the usual way a command
+                                       drives a module: the WRAPPER is the only guard between the request and the driver
+      'direct'  module code (another module, a poller) calls write_target(v)"""
     import frappy.modulebase
     import frappy.protocol.dispatcher
     from frappy.modules import Module
-    from frappy.params import Parameter, Limit
+    from frappy.params import Parameter, Limit, Command
     from frappy.datatypes import FloatRange
     from vlib.node import Node
     from vlib.sched import Scheduler
     s = Scheduler(policy=policy, max_steps=4000)
     events, calls, replies = [], [], []
+    via = case.get('via') or ['change'] * len(case['values'])
+    cur = {'how': None}      # how the value now on its way to write_target came in
 
     def tid():
         me = s.me()
@@ -1362,8 +1369,13 @@ def conc_run(case, policy):
 
             def write_target(self, value):
                 events.append(['call', tid(), int(value)])
-                calls.append((value, self.target_max))
+                calls.append((value, self.target_max, cur['how']))
                 return value
+
+            @Command(FloatRange(0, 1000))
+            def go(self, value):
+                """drive to value"""
+                self.write_target(value)
         node = Node({'m': {'cls': CM, 'description': 'm', 'target_max': {'value': float(case['max0'])}}},
                     omit_unchanged_within=0)
         mo = node.modules['m']
@@ -1372,8 +1384,16 @@ def conc_run(case, policy):
         c1, c2 = node.connect(), node.connect()
 
         def requester():
-            for v in case['values']:
-                replies.append(reply_obs(node.request(c1, 'change', 'm:target', v)))
+            for v, how in zip(case['values'], via):
+                cur['how'] = how
+                if how == 'direct':
+                    try:
+                        mo.write_target(float(v))
+                        replies.append(['direct', 'ok'])
+                    except Exception as e:
+                        replies.append(['direct', type(e).__name__])
+                else:
+                    replies.append(reply_obs(node.request(c1, how, 'm:target' if how == 'change' else 'm:go', v)))
             s.yield_(('end',))
 
         def mover():
@@ -1400,14 +1420,14 @@ def conc_run(case, policy):
     registry = logging.Logger.manager.loggerDict
     for k in [k for k in registry if k == node.root.name or k.startswith(node.root.name + '.')]:
         del registry[k]
-    return s, {'events': events, 'calls': calls, 'replies': replies, 'result': result, 'node': nj}
+    return s, {'events': events, 'calls': calls, 'replies': replies, 'result': result, 'node': nj, 'via': via}
 
 
 def conc_requests(case, obs):
     """driver requests for one run: the event sequence on the lock-discipline system + every driver call against the
     limits of its moment"""
     reqs = [{'p': PID, 'k': 'lockrun', 'max': int(case['max0']), 'acts': obs['events']}]
-    for v, lim in obs['calls']:
+    for v, lim, _ in obs['calls']:
         nj = json.loads(json.dumps(obs['node']))
         for a in nj['modules'][0]['accs']:
             if a['attr'] == 'target_max':
@@ -1423,7 +1443,8 @@ def gen_conc_case(rng):
     values = [rng.choice([max0 - 10, max0, max0 // 2, max0 + 5]) for _ in range(rng.choice([1, 2]))]
     moves = [[rng.choice(['read', 'read', 'write', 'change']), rng.choice([max0 // 4, max0 - 20, max0 + 100, 1])]
              for _ in range(rng.choice([1, 1, 2]))]
-    return {'max0': max0, 'values': values, 'moves': moves}
+    via = [rng.choice(['change', 'change', 'do', 'do', 'direct']) for _ in values]
+    return {'max0': max0, 'values': values, 'moves': moves, 'via': via}
 
 
 def conc_verdict(obs, ans):
@@ -1431,11 +1452,13 @@ def conc_verdict(obs, ans):
     for a in ans:
         if 'driver_error' in a:
             raise RuntimeError('driver error: %s' % a['driver_error'])
-    for (v, lim), a in zip(obs['calls'], ans[1:]):
+    for (v, lim, how), a in zip(obs['calls'], ans[1:]):
         if not a['ok']:
-            return ('C04:concurrent:call-outside-current-limits',
+            came = {'change': 'a change request', 'do': 'a do request (command forwarding to write_target)',
+                    'direct': 'module code calling write_target'}.get(how, how)
+            return ('C04:concurrent:call-outside-current-limits:via-%s' % how,
                     f'write_target({v}) was called while target_max was {lim} (moved by another thread between check and call); '
-                    f'replies {obs["replies"]}')
+                    f'the value came by {came}; replies {obs["replies"]}')
     if not ans[0]['ok']:
         return ('C04:concurrent:lock-discipline',
                 f'the wrappers\' events are not a run of the lock-discipline system (check / call / limit move outside one '
@@ -1450,7 +1473,7 @@ def conc_judge(ctx, case, obs):
 
 def run_concurrent(ctx, res, big):
     from vlib.sched import explore
-    ncases = ctx.budget(14, 120)
+    ncases = ctx.budget(22, 140)
     seen_sigs = set()
     for _ in range(ncases):
         case = gen_conc_case(ctx.rng)
@@ -1469,6 +1492,8 @@ def run_concurrent(ctx, res, big):
             res.evaluations += 1
             res.traces += 1
             res.count('concurrent.schedules')
+            for how in obs['via']:
+                res.count('concurrent.value-came-by.' + how)
             res.count('concurrent.driver-calls', len(obs['calls']))
             if any(e[0] == 'move' for e in obs['events']) and obs['calls']:
                 res.nontriv(['conc', case, prefix])
@@ -1478,8 +1503,6 @@ def run_concurrent(ctx, res, big):
                 seen_sigs.add(bad[0])
                 res.violations.append({'sig': bad[0], 'what': bad[1],
                                        'case': {'concurrent': case, 'schedule': prefix}})
-            if bad and bad[0].endswith('call-outside-current-limits'):
-                break
 
 
 # ----------------------------------------------------------------------------------------
@@ -2306,7 +2329,7 @@ def replay(ctx, rp):
         s, obs = conc_run(c['concurrent'], ReplayThenDefault(c['schedule']))
         print('case    :', c['concurrent'])
         print('events  :', obs['events'])
-        print('calls (value, target_max at that moment):', obs['calls'])
+        print('calls (value, target_max at that moment, how the value came in):', obs['calls'])
         print('replies :', obs['replies'])
         bad = conc_judge(ctx, c['concurrent'], obs)
         print('judge   :', bad)
